@@ -21,7 +21,7 @@ FUNCTIONS = [
 ]
 BOUNDS = {
     "quick": "retrospective mode: 3 plates (batch size symbolic in 1..2) and 4 plates (batch 1..3); prospective mode: batch size 1..3; one interruption at any numbered mutation point of the whole run (each mkdir of each path component, each entry removed by rmtree, inside a pipeline run with any dependency-closed subset of its outputs published, just after a step); every pair of interruptions (second one during the recovery) for 3 plates / batch <= 2; a 12-plate batch-1 retrospective run and the eleventh prospective round (iter_10 next to iter_2..iter_9)",
-    "thorough": "additionally retrospective 5 plates with batch 1..4, two interruptions for 4 plates / batch <= 3, prospective batch up to 5 and two interruptions with batch <= 3; retrospective 6 plates (batch 1..5), 5 plates with two interruptions, 13 plates with batch 1..3; prospective rounds after 1, 3, 10 and 11 earlier uninterrupted rounds",
+    "thorough": "additionally retrospective 5 plates with batch 1..4, two interruptions for 4 plates / batch <= 3, prospective batch up to 5 and two interruptions with batch <= 3; retrospective 6 plates (batch 1..5), 5 plates with two interruptions, 13 plates with batch 1..3; prospective rounds after 1, 3, 10, 11 and 101 earlier uninterrupted rounds",
 }
 ASSUMPTIONS = [
     "filesystem model: a directory tree with atomic single-entry mkdir / unlink / file publish; os.makedirs and shutil.rmtree are sequences of such steps",
@@ -54,7 +54,9 @@ def configs(tier, seed):
                 dict(name="prospective, rounds 2-4 and 12", h="resume", mode="prospective", P=3, bmax=2, crashes=1, pre=1),
                 dict(name="prospective, fourth round two interruptions", h="resume", mode="prospective", P=3, bmax=2, crashes=2, pre=3),
                 dict(name="prospective, twelfth round two interruptions", h="resume", mode="prospective", P=3, bmax=2, crashes=2, pre=11),
-                dict(name="prospective b<=5", h="resume", mode="prospective", P=3, bmax=5, crashes=1),dict(name="retrospective P=5", h="resume", mode="retrospective", P=5, bmax=4, crashes=1),
+                dict(name="prospective b<=5", h="resume", mode="prospective", P=3, bmax=5, crashes=1),
+                dict(name="prospective, 102nd round (iter_100 next to iter_11)", h="resume", mode="prospective", P=3, bmax=1, crashes=1, pre=101, split_after=1),
+dict(name="retrospective P=5", h="resume", mode="retrospective", P=5, bmax=4, crashes=1),
                 dict(name="retrospective P=4 two interruptions", h="resume", mode="retrospective", P=4, bmax=3, crashes=2),
                 dict(name="prospective b<=4", h="resume", mode="prospective", P=3, bmax=4, crashes=1),
                 dict(name="prospective b<=3 two interruptions", h="resume", mode="prospective", P=3, bmax=3, crashes=2)]
@@ -97,6 +99,7 @@ class Pipeline:
         self.ctx, self.fs, self.P, self.mode, self.choose = ctx, fs, P, mode, choose
         self.launches = []
         self.nruns = 0
+        self.allow = 0  # launches of earlier, uninterrupted rounds
 
     def __call__(self, cmd, cwd=None):
         fs = self.fs
@@ -117,7 +120,7 @@ class Pipeline:
                    excludes=exc[0] if exc else None, initialize=a.get("--initialize"), reveal=a.get("--reveal"), name=name)
         self.launches.append((out, key))
         self.nruns += 1
-        if self.nruns > 6 * self.P + 12:
+        if self.nruns > 6 * self.P + 12 + self.allow:
             self.ctx.fail("the script keeps launching steps (a simulation of %d plates needs at most %d)" % (self.P, self.P),
                           key="%s: script does not terminate" % self.mode, detail="last launch: %s" % out)
         files = []  # (filename, content, deps)
@@ -247,6 +250,7 @@ def h_resume(ctx, cfg):
         fs0 = _mkfs(ctx, None, "ref")
         cleanup.append(fs0)
         p0 = Pipeline(ctx, fs0, P, mode, lambda name: True)
+        p0.allow = cfg.get("pre", 0) * cfg["bmax"]
         m0 = _load_script(ctx, fs0, p0)
         # earlier, uninterrupted invocations (prospective mode: one round per invocation) - not subject to interruption
         for _ in range(cfg.get("pre", 0)):
@@ -265,7 +269,11 @@ def h_resume(ctx, cfg):
             ctx.prove(o not in ref_launch, "uninterrupted run launches every step once")
             ref_launch[o] = k
         # ---- interrupted execution
-        c1 = ctx.int("crash_at", 0, total - 1)
+        lo = 0
+        if cfg.get("late"):
+            # only interruptions within the last `late` steps of a long run (the earlier ones are those of the shorter runs)
+            lo = max(0, total - cfg["late"] * (total // max(1, len(p0.launches))))
+        c1 = ctx.int("crash_at", lo, total - 1)
         state = dict(phase=1)
 
         def hook(tick, what):
@@ -277,6 +285,7 @@ def h_resume(ctx, cfg):
         fs = _mkfs(ctx, hook, "run")
         cleanup.append(fs)
         pl = Pipeline(ctx, fs, P, mode, lambda name: ctx.is_true(ctx.bool("pub_" + name)))
+        pl.allow = cfg.get("pre", 0) * cfg["bmax"]
         mod = _load_script(ctx, fs, pl)
         log = []
         if cfg.get("pre", 0):
